@@ -630,7 +630,12 @@ class C09(Prop):
             return 'JSRUN:names-no-node'
         if clause == 'count' and lm == 'JSRUN' and name == 'JSRUN':
             return 'JSRUN:inhomogeneous-resource-sets'
-        return name
+        if lm == 'MPIEXEC':
+            return 'MPIEXEC/' + ('rankfile' if o['rf'] else 'PALS' if o['flavor'] == 'PALS' else
+                                 'hostfile-colon' if o['hf'] else 'hostfile-slots')
+        if lm == 'JSRUN':
+            return name
+        return lm
 
     def signature(self, case, obs, clause):
         return '%s:%s' % (clause, self._cond(case, clause))
@@ -644,6 +649,10 @@ class C09(Prop):
             t = tsk(t)
             key = 'rs' if NAMES[case['name']] == 'JSRUN' else 'slots'
             sl = t[key]
+            if len(sl) > 3:
+                for new in (sl[:len(sl) // 2], sl[len(sl) // 2:], sl[:2] + sl[-1:]):
+                    nr = len(new) if key == 'slots' else sum(len(r[1]) for r in new)
+                    yield dict(case, tasks=ts[:i] + [dict(t, **{key: new, 'ranks': nr})] + ts[i + 1:])
             for j in range(len(sl)):
                 if len(sl) > 1:
                     new = sl[:j] + sl[j + 1:]
